@@ -4,6 +4,8 @@
  * Built by /verif/bin/build-shadow with `cc -shared -fPIC`; used through LD_PRELOAD only
  * by the harness. Without VERIF_HASH_SEED it defers to the real system call. */
 #define _GNU_SOURCE
+#include <dlfcn.h>
+#include <errno.h>
 #include <stdint.h>
 #include <stdlib.h>
 #include <string.h>
@@ -38,4 +40,40 @@ ssize_t getrandom(void *buf, size_t buflen, unsigned int flags) {
         i += n;
     }
     return (ssize_t)buflen;
+}
+
+/* I/O fault seam (S-io): with VERIF_IO_SEED set, read(2) and write(2) on any descriptor return
+ * SHORT counts and spurious EINTR errors, decided by a PRNG seeded from VERIF_IO_SEED and a
+ * per-process call counter (the programs are single-threaded outside the simulated pool, and the
+ * pool runs one thread at a time, so the call order is deterministic). Legal kernel behaviour
+ * that correct code (read_exact / read_to_end / write_all, EINTR retry) must tolerate. */
+static uint64_t io_counter = 0;
+static ssize_t (*real_read)(int, void *, size_t) = 0;
+static ssize_t (*real_write)(int, const void *, size_t) = 0;
+
+static int io_fault(size_t *count) {
+    const char *s = getenv("VERIF_IO_SEED");
+    if (!s || *count <= 1) return 0;
+    uint64_t seed = strtoull(s, NULL, 10);
+    uint64_t c = __atomic_fetch_add(&io_counter, 1, __ATOMIC_SEQ_CST);
+    uint64_t x = seed * 0x9E3779B97F4A7C15ULL + c * 0xD1342543DE82EF95ULL + 7;
+    uint64_t r = splitmix(&x);
+    if ((r & 7) == 0) return 1; /* EINTR */
+    if ((r & 7) <= 4) {          /* short transfer */
+        size_t cap = (r >> 8) % 3 == 0 ? 1 + (r >> 16) % 7 : 1 + (r >> 16) % 4096;
+        if (cap < *count) *count = cap;
+    }
+    return 0;
+}
+
+ssize_t read(int fd, void *buf, size_t count) {
+    if (!real_read) real_read = (ssize_t(*)(int, void *, size_t))dlsym(RTLD_NEXT, "read");
+    if (io_fault(&count)) { errno = EINTR; return -1; }
+    return real_read(fd, buf, count);
+}
+
+ssize_t write(int fd, const void *buf, size_t count) {
+    if (!real_write) real_write = (ssize_t(*)(int, const void *, size_t))dlsym(RTLD_NEXT, "write");
+    if (io_fault(&count)) { errno = EINTR; return -1; }
+    return real_write(fd, buf, count);
 }
